@@ -233,6 +233,9 @@ func runC07(c *core.Ctx) {
 		})
 	}
 	sim.run()
+	if sim.livelock {
+		return
+	}
 	if sim.deadlock {
 		c.Violate("deadlock", "C07/deadlock", "no runnable thread while some are blocked on the sequencer's lock")
 		return
